@@ -206,6 +206,8 @@ def abstract(case_line, out):
                 ev.append(f'{tid}:ret' + (f':{t[1]}' if len(t) > 1 else ''))
             elif k == 'end':
                 pass
+            elif re.match(r'(ld|st|xchg|casw|cass|fadd|fsub) o\d+( |$)', n):
+                pass        # an atomic the harness did not name (a statistics counter, say): not a protocol variable
             else:
                 raise Bad('note ' + n)
     return 'spnrace ; ' + ' ; '.join(ev)
